@@ -91,6 +91,14 @@ func genBody(r *rt.Rand, n int) []byte {
 			b[i] = '#'
 		case 3:
 			b[i] = ':'
+		case 4:
+			// bytes that mean something to a formatter, a printf verb parser, a JSON or a shell reader - and
+			// nothing to a sink, which stores what it is given byte for byte
+			const odd = "%%%sdvq\\\"'{}[]$`\t\r"
+			b[i] = odd[r.Intn(len(odd))]
+			if r.Intn(4) == 0 {
+				b[i] = byte(0x80 + r.Intn(0x80))
+			}
 		default:
 			b[i] = byte('a' + r.Intn(26))
 		}
